@@ -34,6 +34,14 @@ MUTANTS = [
  ("c04-ignore-siginfo-flag", "C04", [(REG, "            if self.info.sa_flags & siginfo == 0 {", "            if self.info.sa_flags & siginfo == 0 || true {")], 30000),
  ("c04-prev-after-actions", "C04", [(REG, "        unsafe { slot.prev.execute(sig, info, data) };\n\n        let info = unsafe { info.as_ref() };", "        let info0 = info;\n        let info = unsafe { info.as_ref() };"),
                                     (REG, "        for action in slot.actions.values() {\n            action(info);\n        }\n    } else if let Some(prev) = fallback.as_ref() {\n        // In case we get called but don't have the slot for this signal set up yet, we are under\n        // the race condition. We may have the old signal handler stored in the fallback\n        // temporarily.\n        if prev.signal == sig {", "        for action in slot.actions.values() {\n            action(info);\n        }\n        unsafe { slot.prev.execute(sig, info0, data) };\n    } else if let Some(prev) = fallback.as_ref() {\n        // In case we get called but don't have the slot for this signal set up yet, we are under\n        // the race condition. We may have the old signal handler stored in the fallback\n        // temporarily.\n        if prev.signal == sig {")], 30000),
+ ("c06-capacity-4", "C06", [(CH, "const SLOTS: usize = 5;", "const SLOTS: usize = 4;")], 30000),
+ ("c06-enqueue-load-store", "C06", [(CH, "        match q.compare_exchange_weak(current, modified, Ordering::Release, Ordering::Relaxed) {\n            Ok(_) => break,\n            Err(changed) => current = changed, // And retry with the changed value\n        }", "        q.store(modified, Ordering::Release);\n        if false { current = 0; }\n        break;")], 60000),
+ ("c06-dequeue-lifo", "C06", [(CH, "        let val = current & MASK;\n        // It's completely empty\n        if val == 0 {\n            break None;\n        }\n        let modified = current >> BITS;", "        let last = (0..SLOTS as u16).rev().find(|i| get(current, *i) != 0);\n        let val = match last { Some(i) => get(current, i), None => 0 };\n        // It's completely empty\n        if val == 0 {\n            break None;\n        }\n        let modified = set(current, last.unwrap(), 0);")], 30000),
+ ("c07-enqueue-relaxed", "C07", [(CH, "compare_exchange_weak(current, modified, Ordering::Release, Ordering::Relaxed)", "compare_exchange_weak(current, modified, Ordering::Relaxed, Ordering::Relaxed)")], 60000),
+ ("c07-dequeue-relaxed", "C07", [(CH, "compare_exchange_weak(current, modified, Ordering::Acquire, Ordering::Relaxed)", "compare_exchange_weak(current, modified, Ordering::Relaxed, Ordering::Relaxed)")], 60000),
+ ("c07-recv-copies", "C07", [(CH, "            let result = unsafe { &mut *self.storage[idx as usize - 1].get() }\n                .take()\n                .expect(\"Full slot with nothing in it\");", "            let result = unsafe { std::ptr::read(self.storage[idx as usize - 1].get()) }\n                .expect(\"Full slot with nothing in it\");")], 30000),
+ ("c07-leak-when-full", "C07", [(CH, "            enqueue(&self.full, empty_idx);\n        }\n    }", "            enqueue(&self.full, empty_idx);\n        } else {\n            std::mem::forget(val);\n        }\n    }")], 30000),
+ ("c08-send-waits-for-slot", "C08", [(CH, "        if let Some(empty_idx) = dequeue(&self.empty) {", "        let got = loop { if let Some(i) = dequeue(&self.empty) { break Some(i); } };\n        if let Some(empty_idx) = got {")], 20000),
  ("c18-poison-fatal", "C18", [(HL, "            .unwrap_or_else(PoisonError::into_inner);", "            .unwrap();")], 60000),
  ("c18-barrier-needs-arrival", "C18", [(HL, "*seen = *seen || slot.load(Ordering::SeqCst) == 0;", "*seen = *seen || slot.load(Ordering::SeqCst) == 1;")], 30000),
 ]
